@@ -51,9 +51,10 @@ PROBE = "\na\n"
 
 
 def bounds(tier):
+    """list of (calls, fragment cap) configurations; every kind sequence of each is checked"""
     if tier == "quick":
-        return dict(calls=2, cap=3, amt=2)
-    return dict(calls=2, cap=4, amt=2)
+        return [dict(calls=2, cap=3, amt=2)]
+    return [dict(calls=2, cap=4, amt=2), dict(calls=3, cap=2, amt=2)]
 
 
 # --------------------------------------------------------------------------- interpretation
@@ -492,7 +493,7 @@ def check_combo(args):
     import core
     kinds, tier, seed, B, second = args
     K = len(kinds)
-    name = "-".join(KINDS[k][0] + KINDS[k][-1] for k in kinds)      # ps = push_str, pl = literal, it, dt
+    name = "k%dc%d_" % (K, B["cap"]) + "-".join(KINDS[k][0] + KINDS[k][-1] for k in kinds)   # pr = push_str, pl = literal, it, dt
     combo = ",".join(KINDS[k] for k in kinds)
     stats = core.Stats()
     dec = core.Decider("C25/" + name, tier, stats)
@@ -630,12 +631,12 @@ def run(ctx):
     tier, seed, dec = ctx["tier"], ctx["seed"], ctx["decider"]
     stats = ctx["stats"]
     res = Result()
-    B = bounds(tier)
-    K = B["calls"]
-    res.bounds = {"calls": "every sequence of %d calls over {push_str, push_str_literal, indent, deindent} (enumerated: %d kind "
-                           "sequences; texts and amounts symbolic), then the probe push_str(%r)" % (K, 4 ** K, PROBE),
-                  "fragments": "every string of length <= %d over {a, space, '{', '}', '/', newline}" % B["cap"],
-                  "amounts": "0..%d" % B["amt"], "start_state": "Source::default()"}
+    BS = bounds(tier)
+    res.bounds = {"calls": "; ".join("every sequence of %d calls over {push_str, push_str_literal, indent, deindent} (%d kind sequences "
+                                     "enumerated; texts and amounts symbolic) with fragments = every string of length <= %d over "
+                                     "{a, space, '{', '}', '/', newline}" % (B["calls"], 4 ** B["calls"], B["cap"]) for B in BS)
+                           + "; each followed by the probe push_str(%r)" % PROBE,
+                  "amounts": "0..%d" % BS[0]["amt"], "start_state": "Source::default()"}
     res.outside_claim = ["longer call sequences / fragments, other characters (tabs, \\r, non-ASCII)",
                          "append_src, set_indent, as_mut_string, the uwrite!/uwriteln! macros (they call push_str)",
                          "indentation of lines that carry their own leading whitespace is only bounded from below (ii-w)",
@@ -649,14 +650,17 @@ def run(ctx):
                      (FILES[0], "fn newline"), (FILES[0], "pub fn indent"), (FILES[0], "pub fn deindent"),
                      (FILES[0], "pub fn as_str"), (FILES[0], "pub struct Source")]
     asts = load_asts(FILES)
-    if not validate_translator(asts, res, seed, B):
+    if not validate_translator(asts, res, seed, BS[0]):
         return res
-    combos = list(itertools.product(range(4), repeat=K))
-    # hardest first (most text calls) so that the pool stays busy
-    combos.sort(key=lambda c: -sum(1 for k in c if k in (0, 1)))
+    jobs = []
+    for B in BS:
+        for c in itertools.product(range(4), repeat=B["calls"]):
+            jobs.append((c, B))
+    # hardest first (most symbolic text) so that the pool stays busy
+    jobs.sort(key=lambda j: -sum(j[1]["cap"] for k in j[0] if k in (0, 1)))
+    combos = jobs
     with multiprocessing.get_context("fork").Pool(2) as pool:       # 2 workers x 2 racing solvers = 4 cores
-        outs = pool.map(check_combo, [(c, tier, seed, B, tier == "thorough" or i == 0) for i, c in enumerate(combos)],
-                        chunksize=1)
+        outs = pool.map(check_combo, [(c, tier, seed, B, i == 0) for i, (c, B) in enumerate(jobs)], chunksize=1)
     seen_roles = set()
     caps = []
     for o in outs:
